@@ -78,6 +78,7 @@ type BaseStore struct {
 	muIndex   sync.RWMutex
 	muJoining sync.Mutex
 	muWrite   sync.Mutex
+	muStatus  sync.Mutex
 	sortFn    ipfslog.SortFn
 	logger    *zap.Logger
 	tracer    trace.Tracer
@@ -971,7 +972,14 @@ func (b *BaseStore) appendAndIndex(ctx context.Context, oplog ipfslog.Log, data 
 	return e, nil
 }
 
+// recalculateReplicationProgress and recalculateReplicationMax read the replication status,
+// compute and store the new value: muStatus makes each of them one critical section, since
+// they are called from the store's event loop, from local writers and from Load, and a
+// stale value stored late would make the progress or the maximum go backwards.
 func (b *BaseStore) recalculateReplicationProgress() {
+	b.muStatus.Lock()
+	defer b.muStatus.Unlock()
+
 	verifhook.Point("store.recalc_progress_enter", b.id)
 	max := b.ReplicationStatus().GetMax()
 	if progress := b.ReplicationStatus().GetProgress() + 1; progress < max {
@@ -988,6 +996,9 @@ func (b *BaseStore) recalculateReplicationProgress() {
 }
 
 func (b *BaseStore) recalculateReplicationMax(max int) {
+	b.muStatus.Lock()
+	defer b.muStatus.Unlock()
+
 	verifhook.Point("store.recalc_max_enter", b.id)
 	verifArg := max
 	if opLogLen := b.OpLog().Len(); opLogLen > max {
